@@ -111,7 +111,17 @@ def check(ctx: Ctx) -> str:
         ctx.check(ok, f"{fname}:empty", f"filters:{fname}", "empty input", f"{fname} must return an undefined value for an empty input (catching exactly {exc})", fi.loc())
     un = repo.func("filters:sync_do_unique")
     s = ast.unparse(un.node)
-    ctx.check("if key not in seen:\n            seen.add(key)\n            yield item" in s and "seen = set()" in s, "unique", "filters:sync_do_unique", "first occurrences", "unique must yield an item exactly when its key was not seen before, then record it", un.loc())
+    # (any names, guard written either way: `if key not in seen:` around, or `if key in seen: continue` before)
+    seen_sets = {t_.id for a_ in ast.walk(un.node) if isinstance(a_, ast.Assign) and ast.unparse(a_.value) == "set()" for t_ in a_.targets if isinstance(t_, ast.Name)}
+    uq_ok = False
+    for y_ in [y for y in ast.walk(un.node) if isinstance(y, ast.Yield)]:
+        ats_ = astq.guard_atoms(un.node, y_)
+        mem = [a_ for a_ in ats_ if not a_[1] and " in " in a_[0] and a_[0].rsplit(" in ", 1)[1] in seen_sets]
+        if len(mem) == 1:
+            k_, s_ = mem[0][0].rsplit(" in ", 1)
+            adds_ = [c for c in astq.calls(un.node) if ast.unparse(c.func) == f"{s_}.add" and len(c.args) == 1 and ast.unparse(c.args[0]) == k_ and mem[0] in astq.guard_atoms(un.node, c)]
+            uq_ok = len(adds_) == 1
+    ctx.check(uq_ok, "unique", "filters:sync_do_unique", "first occurrences", "unique must yield an item exactly when its key was not seen before, then record it", un.loc())
     sm = repo.func("filters:sync_do_sum")
     ctx.check("sum(iterable, start)" in ast.unparse(sm.node), "sum", "filters:sync_do_sum", "start value", "sum must start from `start`", sm.loc())
     mm = repo.func("filters:_min_or_max")
@@ -123,13 +133,12 @@ def check(ctx: Ctx) -> str:
     rv = repo.func("filters:do_reverse")
     ctx.check("value[::-1]" in ast.unparse(rv.node) and "reversed(value)" in ast.unparse(rv.node), "reverse", "filters:do_reverse", "reverse", "reverse must reverse strings by slicing and iterables with reversed()", rv.loc())
     fresh_list_rule(ctx, "R8")
-    ctx.rule("R8", "map: the attribute form is chosen only when no filter name was given - prepare_map's attribute branch is guarded by `not args and 'attribute' in kwargs`")
+    ctx.rule("R9", "map: the attribute form is chosen only when no filter name was given - prepare_map's attribute branch is guarded by `not args and 'attribute' in kwargs`")
     pm = repo.func("filters:prepare_map")
-    ifs = [i_ for i_ in ast.walk(pm.node) if isinstance(i_, ast.If) and "'attribute' in kwargs" in ast.unparse(i_.test)]
+    # the attribute branch is where `kwargs.pop('attribute')` happens (if-body or else-body, test written either way)
+    ifs = [c for c in astq.calls(pm.node) if ast.unparse(c.func) == "kwargs.pop" and c.args and ast.unparse(c.args[0]) == "'attribute'"]
     ctx.need(len(ifs) == 1, "prepare_map: the attribute branch was not found")
-    from ..normalize import atoms as _atoms
-
-    at_ = set(_atoms(ifs[0].test, True)) | set(astq.guard_atoms(pm.node, ifs[0]))
+    at_ = set(astq.guard_atoms(pm.node, ifs[0]))
     ctx.check(at_ == {("args", False), ("'attribute' in kwargs", True)}, "map:attribute-branch", "filters:prepare_map", f"attribute branch under {sorted(at_)}",
               f"prepare_map takes the attribute-lookup branch under {sorted(at_)} (required: no positional filter name and an `attribute` keyword): `map('sum', attribute='n')` then never calls the named filter and silently yields the attribute lookup",
               pm.loc(ifs[0]))
